@@ -294,6 +294,77 @@ pub fn check(opts: &CheckOpts) -> CheckResult {
     }
 }
 
+/// scan of the library source for constructs that would invalidate the single-threaded /
+/// no-hidden-state premise (DESIGN.md section 3); reported in the C15 evidence
+fn premise_scan() -> J {
+    let dir = format!("{}/src", crate::corpus::repo_dir());
+    let needles = [
+        "static ",
+        "thread_local",
+        "Atomic",
+        "unsafe",
+        "Cell<",
+        "Mutex",
+        "RwLock",
+        "OnceLock",
+        "OnceCell",
+        "lazy_static",
+        "std::env",
+        "SystemTime",
+        "Instant",
+    ];
+    let mut found = vec![];
+    let mut files = vec![];
+    fn walk(dir: &str, out: &mut Vec<String>) {
+        if let Ok(rd) = std::fs::read_dir(dir) {
+            let mut entries: Vec<_> = rd.filter_map(|e| e.ok()).collect();
+            entries.sort_by_key(|e| e.file_name());
+            for e in entries {
+                let p = e.path();
+                if p.is_dir() {
+                    walk(&p.to_string_lossy(), out);
+                } else if p.extension().map(|x| x == "rs").unwrap_or(false) {
+                    out.push(p.to_string_lossy().to_string());
+                }
+            }
+        }
+    }
+    walk(&dir, &mut files);
+    for f in &files {
+        if f.ends_with("verif_hooks.rs") {
+            continue;
+        }
+        let Ok(text) = std::fs::read_to_string(f) else { continue };
+        for (n, line) in text.lines().enumerate() {
+            let t = line.trim_start();
+            if t.starts_with("//") {
+                continue;
+            }
+            if let Some(needle) = needles.iter().find(|nd| line.contains(**nd)) {
+                // `&'static str` and `'static` lifetimes are not state
+                if *needle == "static " && !t.contains("static ref") && !t.starts_with("static ")
+                    && !t.starts_with("pub static ") && !t.starts_with("pub(crate) static ")
+                {
+                    continue;
+                }
+                found.push(J::s(format!(
+                    "{}:{}: {}",
+                    f.trim_start_matches(&dir).trim_start_matches('/'),
+                    n + 1,
+                    t
+                )));
+            }
+        }
+    }
+    J::obj()
+        .set("files_scanned", J::u(files.len()))
+        .set(
+            "expected",
+            J::s("only the per-iterator RefCell<StdRng> in eval_context.rs (owned by each DataRowIterator's EvalContext, not reachable from TestCase)"),
+        )
+        .set("occurrences", J::Arr(found))
+}
+
 fn evaluate_stub() -> Eval {
     // an Eval with nothing in it (used for hang reports)
     let case = Case {
@@ -425,6 +496,14 @@ fn evidence_json(
                     "stub",
                     J::s("device under test (SimDut: seeded pure answer function + fault plan), caller/scheduler, entropy source, hash iteration order"),
                 ),
+        )
+        .set(
+            "premise_scan",
+            if prop == Prop::C15 {
+                premise_scan()
+            } else {
+                J::Null
+            },
         )
         .set("truncated_by_wall_clock", J::Bool(truncated))
         .set("workers", J::u(opts.jobs))
